@@ -1,5 +1,6 @@
 """U9b — tonic-web server side: call.rs (response encoding: data passthrough / base64, trailers frame layout; request decoding:
 base64 carry) and service.rs (request classification, status table, header coercion).  Carries C16 (partial)."""
+import re
 from vxlib import Unit, Clause, r19_merge_guard_arms
 from units import common
 
@@ -52,13 +53,46 @@ impl BytesMut {
     pub fn put_slice(&mut self, s: &[u8]) ensures final(self)@ == old(self)@ + s@, final(self).reserve_bound == old(self).reserve_bound { unimplemented!() }
 }
 impl HasBytes for BytesMut { open spec fn bytes_view(&self) -> Seq<u8> { self@ } }
-// the HTTP/1 header block of a trailers map: `name:value\r\n` per entry in iteration order (PROTOCOL-WEB.md)
-pub uninterp spec fn trailer_block(h: HMap) -> Seq<u8>;
+// the HTTP/1 header block of a trailers map (PROTOCOL-WEB.md): one `name:value\r\n` row per entry, in iteration order
+pub open spec fn trailer_row(e: (Seq<char>, Seq<u8>)) -> Seq<u8> { ascii_bytes(e.0) + seq![58u8] + e.1 + seq![13u8, 10u8] }
+pub open spec fn block_of(s: Seq<(Seq<char>, Seq<u8>)>) -> Seq<u8> decreases s.len() {
+    if s.len() == 0 { Seq::<u8>::empty() } else { block_of(s.drop_last()) + trailer_row(s.last()) }
+}
+pub open spec fn trailer_block(h: HMap) -> Seq<u8> { block_of(hmap_entries(h)) }
 // A-tonic-web-04: a trailers header block stays below 4 GiB (HeaderMap holds at most 2^15 entries of bounded size)
 pub broadcast axiom fn axiom_trailer_block_small(h: HMap) ensures (#[trigger] trailer_block(h)).len() <= u32::MAX;
-// A-tonic-web-03: encode_trailers(h) is that block (trailers.iter().fold(..): iterator adapter, out of reach)
+// folding a step that appends one row per item yields init + block_of(items) (induction over fold_rel)
+pub proof fn lemma_fold_block<'a, F: Fn(Vec<u8>, (&'a HeaderName, &'a HeaderValue)) -> Vec<u8>>(f: F, s: Seq<(Seq<char>, Seq<u8>)>, init: Vec<u8>, r: Vec<u8>)
+    requires
+        fold_rel(f, s, init, r),
+        forall|b: Vec<u8>, k: &'a HeaderName, v: &'a HeaderValue, b2: Vec<u8>| #[trigger] f.ensures((b, (k, v)), b2) ==> b2@ == b@ + trailer_row((k@, v@)),
+    ensures r@ == init@ + block_of(s)
+    decreases s.len()
+{
+    if s.len() == 0 {
+        assert(r@ =~= init@ + block_of(s));
+    } else {
+        let (k, v, mid): (&'a HeaderName, &'a HeaderValue, Vec<u8>) = choose|k: &'a HeaderName, v: &'a HeaderValue, mid: Vec<u8>|
+            k@ == s.last().0 && v@ == s.last().1 && fold_rel(f, s.drop_last(), init, mid) && #[trigger] f.ensures((mid, (k, v)), r);
+        lemma_fold_block(f, s.drop_last(), init, mid);
+        assert((k@, v@) == s.last());
+        assert(r@ =~= init@ + block_of(s));
+    }
+}
+// A-bytes-28: <Vec<u8> as BufMut>::put_slice appends
+pub trait VecBufMut { fn put_slice(&mut self, s: &[u8]) ensures final(self).vb() == old(self).vb() + s@; spec fn vb(&self) -> Seq<u8>; }
+impl VecBufMut for Vec<u8> {
+    open spec fn vb(&self) -> Seq<u8> { self@ }
+    #[verifier::external_body] fn put_slice(&mut self, s: &[u8]) { unimplemented!() }
+}
+impl HeaderName {
+    // A-http-16: <HeaderName as AsRef<[u8]>>::as_ref is the (lower-case ASCII) name
+    #[verifier::external_body]
+    pub fn as_ref(&self) -> (r: &[u8]) ensures r@ == ascii_bytes(self@) { unimplemented!() }
+}
+// A-core-07 (R15): a byte-string literal b"lit" has the bytes of the ASCII literal
 #[verifier::external_body]
-pub fn encode_trailers(trailers: HeaderMap) -> (r: Vec<u8>) ensures r@ == trailer_block(trailers@) { unimplemented!() }
+pub fn verif_bytes_lit(s: &'static str) -> (r: &'static [u8]) ensures r@ == ascii_bytes(s@) { unimplemented!() }
 '''
 
 BODY = r'''
@@ -146,6 +180,38 @@ def build():
     u.item(C, 'struct', 'GrpcWebCall')
     u.raw(BODY)
 
+    def anf(t):
+        # R20 (A-normal form): `RECV.fold(INIT, |..| {..})` as the tail expression becomes
+        # `let step = |..| {..}; let folded = RECV.fold(INIT, step); <hint> folded` (creating the closure first has no effect)
+        import vxlib
+        code = vxlib.code_mask(t.t)
+        m = re.search(r'\.fold\(\s*(Vec::new\(\)),\s*(\|)', t.t)
+        o = t.t.index('{'); c = t.t.rindex('}')
+        if not m:
+            t.lost.append('R20 anchor .fold(Vec::new(), |..|')
+            return
+        cs = m.start(2)
+        bo = t.t.index('{', t.t.index('|', cs + 1))
+        be = vxlib.match_brace(t.t, code, bo)
+        closure = t.t[cs:be]
+        t.edit('S-hint', c, c, """;
+    proof {
+        lemma_fold_block(step, hmap_entries(trailers@), init, folded);
+        assert(folded@ =~= block_of(hmap_entries(trailers@)));
+    }
+    folded
+""")
+        t.edit('R20', cs, be, 'step', 'let-introduction of the closure argument')
+        t.edit('R20', m.start(1), m.end(1), 'init', 'let-introduction of the initial accumulator')
+        t.edit('R20', o + 1, o + 1, ' let init = Vec::new();\n    let step = ' + closure + ';\n    let folded =', 'let-introduction of the tail expression')
+    u.fn(C, 'encode_trailers',
+         body_edits=[lambda t: t.sub_code('R15', r'b"((?:[^"\\]|\\.)*)"', r'verif_bytes_lit("\1")'),
+                     lambda t: t.sub_code('R11', r'\(key, value\)\| \{', 'kv| { let (key, value) = kv;'),
+                     anf],
+         closures={0: dict(params="mut acc: Vec<u8>, kv: (&HeaderName, &HeaderValue)", ret='(o: Vec<u8>)',
+                           ensures=['o@ =~= acc@ + trailer_row((kv.0@, kv.1@))'])},
+         hints=[('before', 'acc.put_slice(key.as_ref());', '        proof { reveal_strlit("\\r\\n"); assert(ascii_bytes("\\r\\n"@) =~= seq![13u8, 10u8]); }')],
+         ensures=[Clause('T0_header_block_lists_every_trailer_row_in_order', 'r@ == trailer_block(trailers@)')])
     u.fn(C, 'make_trailers_frame',
          requires=['trailer_block(trailers@).len() <= u32::MAX'],
          ensures=[Clause('T1_trailers_frame_is_0x80_be32_len_block',
